@@ -387,6 +387,14 @@ func main() {
 		return false
 	}
 	res.Bound = bound
+	if strings.HasPrefix(*common.Unit, "pairs-") {
+		// the task is used by ONE stage of the pipeline only (then directly and by the second pipeline)
+		for _, k1 := range kindsAll {
+			if each(Cfg{Kinds: []string{k1}, Deps: [][]string{{}}}, 2) {
+				goto done
+			}
+		}
+	}
 	switch *common.Unit {
 	case "pairs-b2": // 2 stages: every ordered pair of override kinds in every arrangement, bound 2
 		for _, sh := range shapes[2] {
